@@ -145,7 +145,10 @@ func (s *c14wState) newInst(fn *c14wFunc, op c14wOp) ir.Instruction {
 
 func (s *c14wState) newTerm(fn *c14wFunc, blk *ir.Block, op c14wOp) ir.Terminator {
 	bs := fn.f.Blocks
-	switch op.b % 5 {
+	switch op.b % 6 {
+	case 4:
+		t := bs[op.c%len(bs)]
+		return ir.NewIndirectBr(constant.NewBlockAddress(fn.f, t), t, bs[(op.c+op.d)%len(bs)])
 	case 0:
 		return ir.NewBr(bs[op.c%len(bs)])
 	case 1:
@@ -365,6 +368,21 @@ func (s *c14wState) apply(op c14wOp, observers bool) {
 			if len(s.funcs) > 0 {
 				fn := s.funcs[op.b%len(s.funcs)]
 				b := fn.f.Blocks[op.c%len(fn.f.Blocks)]
+				// the targets of a terminator, edited through its fields (what the next print must show, whatever a
+				// Succs() or a print before the edit has cached)
+				if op.a%2 == 0 {
+					other := fn.f.Blocks[(op.c+1+op.d)%len(fn.f.Blocks)]
+					switch t := b.Term.(type) {
+					case *ir.TermIndirectBr:
+						t.ValidTargets = append(t.ValidTargets, other)
+					case *ir.TermSwitch:
+						t.Cases = append(t.Cases, ir.NewCase(constant.NewInt(types.I32, int64(10+len(t.Cases))), other))
+					case *ir.TermBr:
+						t.Target = other
+					case *ir.TermCondBr:
+						t.TargetTrue, t.TargetFalse = t.TargetFalse, other
+					}
+				}
 				if len(b.Insts) > 0 {
 					switch in := b.Insts[op.d%len(b.Insts)].(type) {
 					case *ir.InstLoad:
